@@ -47,8 +47,10 @@ Section Dict.
   Definition stored_after (meta defaults stored given : dict) : dict :=
     insert_ignore (update stored (open_settings defaults stored given)) meta.
 
-  (* FanoutCache.__init__: what each shard's Cache.__init__ is given.  `divide` = "/ shards". *)
-  Definition fanout_given (rule : fanout_size_limit) (sl : list Z) (divide : V -> V) (defaults given : dict) : dict :=
+  (* FanoutCache.__init__: what the Cache.__init__ of one shard is given.  `divide` = "/ shards"; `existed`: the shard's
+     database file is there before the open (only SLWhenGivenOrNew looks at it).  settings.pop('size_limit', ...) is
+     executed under every rule, so the rest of the given settings never contains size_limit. *)
+  Definition fanout_given (rule : fanout_size_limit) (sl : list Z) (divide : V -> V) (existed : bool) (defaults given : dict) : dict :=
     match rule with
     | SLAlwaysPassed =>
         match (match lookup sl given with Some v => Some v | None => lookup sl defaults end) with
@@ -60,16 +62,33 @@ Section Dict.
         | Some v => drop_keys [sl] given ++ [(sl, divide v)]
         | None => given
         end
+    | SLWhenGivenOrNew =>
+        match lookup sl given with
+        | Some v => drop_keys [sl] given ++ [(sl, divide v)]
+        | None =>
+            if existed then drop_keys [sl] given                (* nothing passed: the shard keeps what it stored *)
+            else match lookup sl defaults with
+                 | Some v => drop_keys [sl] given ++ [(sl, divide v)]
+                 | None => drop_keys [sl] given                 (* DEFAULT_SETTINGS['size_limit'] would raise KeyError *)
+                 end
+        end
     end.
 End Dict.
 
 Definition size_limit_key : list Z := [115; 105; 122; 101; 95; 108; 105; 109; 105; 116].   (* 'size_limit' *)
 
-(* one shard of a FanoutCache opened with `given` *)
-Definition fanout_open_settings {V} (divide : V -> V) (defaults stored given : @dict V) : @dict V :=
-  open_settings defaults stored (fanout_given fanout_size_limit_rule size_limit_key divide defaults given).
-Definition fanout_stored_after {V} (divide : V -> V) (meta defaults stored given : @dict V) : @dict V :=
-  stored_after meta defaults stored (fanout_given fanout_size_limit_rule size_limit_key divide defaults given).
+(* one shard of a FanoutCache opened with `given`, under a given size_limit rule; `existed`: the shard's database
+   file was there before this open (then `stored` is its Settings table; a new shard has stored = []) *)
+Definition fanout_open_settings_with {V} (rule : fanout_size_limit) (divide : V -> V) (existed : bool) (defaults stored given : @dict V) : @dict V :=
+  open_settings defaults stored (fanout_given rule size_limit_key divide existed defaults given).
+Definition fanout_stored_after_with {V} (rule : fanout_size_limit) (divide : V -> V) (existed : bool) (meta defaults stored given : @dict V) : @dict V :=
+  stored_after meta defaults stored (fanout_given rule size_limit_key divide existed defaults given).
+
+(* ... under the rule of the current source (gen/Gen_Format.v) *)
+Definition fanout_open_settings {V} (divide : V -> V) (existed : bool) (defaults stored given : @dict V) : @dict V :=
+  fanout_open_settings_with fanout_size_limit_rule divide existed defaults stored given.
+Definition fanout_stored_after {V} (divide : V -> V) (existed : bool) (meta defaults stored given : @dict V) : @dict V :=
+  fanout_stored_after_with fanout_size_limit_rule divide existed meta defaults stored given.
 
 Definition sval_div (n : Z) (v : sval) : sval := match v with SVInt z => SVInt (z / n) | x => x end.
 
